@@ -241,6 +241,10 @@ class Worker:
             return memoryview(a)
         if k == "o" and t[1] == 999999:
             return (i for i in range(3))   # a foreign object: a generator
+        if fl and fl.startswith("np:") and k in ("i", "b", "f", "inf", "nan"):
+            # a NumPy scalar of the named dtype holding exactly this value
+            v = t[1] if k in ("i", "b") else tree_float(t)
+            return self.dt[fl[3:]](v)
         if fl == "sub" and k == "o":
             base = self.real(t, ty)        # an instance of a user-defined subclass of the generated class
             sub = type("Sub" + type(base).__name__, (type(base),), {})
@@ -1005,6 +1009,16 @@ class Gen:
             out += [tf(x) for x in fl] + ["inf 0", "inf 1", "nan", "N"]
             out += [ts(b"12"), ts(b"x"), ts(b""), ts(b"+5"), ts(b"-1"), ts(b"99999999999999999999"), ts(b"0"), tyb(False, b"7"), tyb(True, b"q"),
                     tl([ti(1)]), tl([]), obj, FOREIGN, (tl([ti(1)]), "tuple")]
+            # NumPy scalars: of the field's own storage dtype (in range, at and beyond the DSDL bounds, at the dtype bounds) and of other dtypes
+            own = dtype_of(ty)
+            for d in dict.fromkeys([own, "i64", "u8", "i8", "u16", "u64"]):
+                dw = int(d[1:])
+                dlo, dhi = (-(1 << (dw - 1)), (1 << (dw - 1)) - 1) if d[0] == "i" else (0, (1 << dw) - 1)
+                vals = [hi + 1, lo - 1, hi, lo, dhi, dlo] if d == own else [hi + 1, lo - 1, rng.randint(lo, hi)]
+                for v in dict.fromkeys(vals):
+                    if dlo <= v <= dhi:
+                        out.append((ti(v), "np:" + d))
+            out += [(tb(True), "np:b"), (tf(2.5), "np:f32"), (tf(float(min(hi, 2 ** 15)) + 1.0), "np:f64")]
             return out
         if k == "F":
             w, mx = ty["w"], ty["max"]
@@ -1015,10 +1029,19 @@ class Gen:
             out += [ti(v) for v in (0, 1, -3, mx, -mx, mx + 1, -(mx + 1), 2 * mx, 2 ** 128, 2 ** 128 - 2 ** 103, 2 ** 128 - 2 ** 103 - 1, 65519, 65520,
                                     2 ** 100 + 2 ** 76 + 1, 10 ** 400, -10 ** 400, 2 ** 1024, 2 ** 1024 - 2 ** 970, 2 ** 1024 - 2 ** 970 - 1)]
             out += ["inf 0", "inf 1", "nan", tb(True), tb(False), "N", ts(b"x"), ts(b"12"), ts(b""), ts(b"-7"), tyb(False, b"3"), tl([]), tl([tf(1.0)]), obj, FOREIGN, (tl([]), "tuple")]
+            # NumPy scalars: the field's own dtype at its bounds / infinite / NaN, wider dtypes beyond the field's maximum, integers
+            own = "f" + str(pick_width(w))
+            out += [(tf(fm), "np:" + own), (tf(-fm), "np:" + own), ("inf 0", "np:" + own), ("nan", "np:" + own), (tf(1.5), "np:" + own)]
+            if w < 64:
+                out += [(tf(fm * 2), "np:f64"), (tf(-fm * 2), "np:f64"), (tf(1.5), "np:f64")]
+            if w == 16:
+                out += [(tf(65520.0), "np:f32"), (tf(2.0 ** 100), "np:f32")]
+            out += [(ti(3), "np:i64"), (ti(200), "np:u8"), (tb(True), "np:b")]
             return out
         if k == "B":
             return ["N", tb(False), tb(True), ti(0), ti(5), ti(-1), tf(0.0), tf(-0.0), tf(0.1), "nan", "inf 1", ts(b""), ts(b"x"), ts(b"0"),
-                    tyb(False, b""), tyb(True, b"z"), tl([]), tl([ti(0)]), obj, td(False, []), td(True, []), FOREIGN, (tl([]), "tuple"), (tl([ti(0)]), "tuple")]
+                    tyb(False, b""), tyb(True, b"z"), tl([]), tl([ti(0)]), obj, td(False, []), td(True, []), FOREIGN, (tl([]), "tuple"), (tl([ti(0)]), "tuple"),
+                    (tb(True), "np:b"), (tb(False), "np:b"), (ti(0), "np:u8"), (ti(2), "np:i64"), (tf(0.0), "np:f32"), ("nan", "np:f64")]
         if k == "C":
             right = [self.stored(ty) for _ in range(2)]
             rel = [self.stored({"k": "C", "c": r}) for r in self.sch.relatives(ty["c"])]   # other versions / namesakes / look-alikes
@@ -1143,7 +1166,8 @@ class Gen:
             return self.array_cands(ty, full)
         out = self.scalar_cands(ty)
         if not full and len(out) > 16 and ty["k"] != "C":
-            out = self.rng.sample(out, 16)
+            keep = [x for x in out if isinstance(x, tuple) and x[1] == "np:" + dtype_of(ty)][:4]   # NumPy scalars of the field's own dtype
+            out = self.rng.sample(out, 16) + keep
         return out
 
     def accepted_cand(self, ty):
